@@ -435,6 +435,67 @@ def nodal_history(ctx, rng, quats):
     return n
 
 
+def jacobian_history(ctx, rng, quats):
+    """the assembled Jacobians of the internal forces (h_q, displacement-based rods, both material laws) and of the compliance equations (c_q, mixed rods)
+    against central differences -- at a state that differs from the state evaluated just before in the nodal POSITIONS only (same nodal quaternions):
+    what is remembered from the earlier evaluation must not enter"""
+    from cardillo import System
+    from cardillo.rods import RectangularCrossSection, Simo1986, Harsch2021, CrossSectionInertias
+    from cardillo.rods.cosseratRod import make_CosseratRod
+    from cardillo.solver import SolverOptions
+
+    n = 0
+    cs = RectangularCrossSection(0.1, 0.2)
+    E, F = np.array([5.0, 1.0, 2.0]), np.array([0.5, 2.0, 1.5])
+    dense = lambda M: np.asarray(M.toarray() if hasattr(M, "toarray") else M, dtype=float)
+    for interp, mixed, degree, mat in (("Quaternion", False, 2, Simo1986(E, F)), ("Quaternion", False, 2, Harsch2021(E, F)), ("R12", False, 2, Harsch2021(E, F)),
+                                       ("Quaternion", False, 1, Harsch2021(E, F)), ("Quaternion", True, 2, Simo1986(E, F)), ("R12", True, 1, Simo1986(E, F))):
+        name = f"{interp}[p={degree},mixed={mixed},{type(mat).__name__}]"
+        try:
+            with warnings.catch_warnings():
+                warnings.simplefilter("ignore")
+                Rod = make_CosseratRod(interpolation=interp, mixed=mixed, polynomial_degree=degree)
+                nel = 2
+                Q = Rod.straight_configuration(nel, 1.5, r_OP0=np.array([0.2, -0.1, 0.3]))
+                rod = Rod(cs, mat, nel, Q=Q, q0=Q.copy(), cross_section_inertias=CrossSectionInertias(1.0, cs), name=f"jh{rng.randrange(10**9)}")
+                system = System(); system.add(rod)
+                system.assemble(options=SolverOptions(compute_consistent_initial_conditions=False))
+            q1 = np.asarray(Q, dtype=float).copy()
+            for node in range(rod.nnodes_r):
+                q1[rod.nodalDOF_r[node]] += 0.15 * np.array([rng.uniform(-1, 1) for _ in range(3)])
+            for node in range(rod.nnodes_p):
+                P = q1[rod.nodalDOF_p[node]] + 0.2 * np.array([rng.uniform(-1, 1) for _ in range(4)])
+                q1[rod.nodalDOF_p[node]] = P * rng.choice([1.0, 1.2, 0.8])
+            q2 = q1.copy()
+            for node in range(rod.nnodes_r):
+                q2[rod.nodalDOF_r[node]] += 0.1 * np.array([rng.uniform(-1, 1) for _ in range(3)])      # positions only
+            u0 = np.zeros(rod.nu)
+            if mixed:
+                la = np.array([rng.uniform(-1, 1) for _ in range(rod.nla_c)])
+                fun = lambda q: np.asarray(rod.c(0.0, q.copy(), u0.copy(), la.copy()), dtype=float)
+                jac = lambda q: dense(rod.c_q(0.0, q.copy(), u0.copy(), la.copy()))
+                what = "c_q"
+            else:
+                fun = lambda q: np.asarray(rod.h(0.0, q.copy(), u0.copy()), dtype=float)
+                jac = lambda q: dense(rod.h_q(0.0, q.copy(), u0.copy()))
+                what = "h_q"
+            jac(q1)                                   # the evaluation before
+            J = jac(q2)
+            num = np.zeros_like(J)
+            hstep = 1e-6
+            for k in range(len(q2)):
+                e = np.zeros(len(q2)); e[k] = hstep
+                num[:, k] = (fun(q2 + e) - fun(q2 - e)) / (2 * hstep)
+            n += 1
+            err = float(np.max(np.abs(J - num)))
+            if not (err <= 1e-5 * (1 + np.max(np.abs(num)))):
+                ctx.violation(f"{name}:{what}:central-difference", f"{what} of the rod differs from central differences by {err:.2e} (scale {np.max(np.abs(num)):.2e}) at a state that differs from the "
+                              f"previously evaluated one in the nodal positions only", dict(rod=name, q_before=q1.tolist(), q=q2.tolist()))
+        except Exception as ex:
+            ctx.violation(f"{name}:jacobian-history:raises:{type(ex).__name__}", f"{type(ex).__name__}: {ex}", {"rod": name})
+    return n
+
+
 def se3_supplement(ctx, rng):
     """SE(3) interpolation (transcendental, outside the rational core): the cross-section Jacobians against central differences"""
     n = 0
@@ -560,6 +621,7 @@ def run(ctx):
                     ctx.violation(f"{name}:raises:{type(ex).__name__}", f"{type(ex).__name__}: {ex}", {"rod": name})
     nse3 = se3_supplement(ctx, rng)
     counts["nodal interpolation after element-wise post-processing"] = nodal_history(ctx, rng, quats)
+    counts["assembled Jacobians after an evaluation with the same quaternions"] = jacobian_history(ctx, rng, quats)
     counts["graded rods (inertia)"] = ngraded
     counts["SE3 central differences"] = nse3
     if not records:
